@@ -9,6 +9,7 @@ import Vise.Driver.Render
 import Vise.Driver.Engine
 import Vise.Driver.Db
 import Vise.Driver.Pg
+import Vise.Driver.Asm
 
 open Vise.Driver
 
@@ -22,6 +23,7 @@ def main (args : List String) : IO UInt32 := do
   | ["engine"] => loop stdin stdout () engineStep; return 0
   | ["db"] => loop stdin stdout () dbStep; return 0
   | ["pg"] => loop stdin stdout () pgStep; return 0
+  | ["asm"] => loop stdin stdout () asmStep; return 0
   | _ =>
     IO.eprintln "usage: visemodel <suite>"
     return 2
